@@ -624,7 +624,9 @@ runLoop:
 			queue := c.undecryptablePacketsToProcess
 			c.undecryptablePacketsToProcess = nil
 			for _, p := range queue {
-				processed, err := c.handleOnePacket(p.receivedPacket, p.datagramID)
+				// The bytes of a buffered packet were credited to the anti-amplification budget
+				// when the datagram carrying it arrived. Don't credit them a second time.
+				processed, err := c.handleCreditedPacket(p.receivedPacket, p.datagramID)
 				if err != nil {
 					c.setCloseError(&closeError{err: err})
 					break runLoop
@@ -1054,7 +1056,12 @@ func (c *Conn) handlePackets() (wasProcessed bool, _ error) {
 
 func (c *Conn) handleOnePacket(rp receivedPacket, datagramID qlog.DatagramID) (wasProcessed bool, _ error) {
 	c.sentPacketHandler.ReceivedBytes(rp.Size(), rp.rcvTime)
+	return c.handleCreditedPacket(rp, datagramID)
+}
 
+// handleCreditedPacket handles a datagram (or a buffered packet) whose size
+// was already reported to the sent packet handler (ReceivedBytes).
+func (c *Conn) handleCreditedPacket(rp receivedPacket, datagramID qlog.DatagramID) (wasProcessed bool, _ error) {
 	if wire.IsVersionNegotiationPacket(rp.data) {
 		return false, c.handleVersionNegotiationPacket(rp)
 	}
